@@ -3,6 +3,14 @@
 HOOK_COMMITS = []
 
 CHECKS = [
+  {"property_id": "C07", "level": "exploration",
+   "technique": "bounded-exhaustive enumeration of typegraphs and queries on the real solver vs a path-enumerating reference solver",
+   "text": "Every typegraph within the bound (all edge subsets acyclic and cyclic, every binding-to-variable assignment, every origin placement, all <=D deviations: extra origins, source-set members, extra source sets, node conditions) is built on the real cfg.Program; every node x every binding subset of size <=3 is queried through HasCombination/CanHaveCombination/IsVisible/Filter/Bindings and compared with a reference that enumerates backward walks (equality on acyclic unconditioned graphs, completeness with conditions and cycles, goal reachability and subset closure everywhere).",
+   "note": "Bounded: graph sizes per tier in vk/checks/c07.py items_for, reported in evidence. Trusted: the reference solver (vk/tg.py) as a transcription of the property statement."},
+  {"property_id": "C08", "level": "model_checking",
+   "technique": "explicit-state BFS over mutation/query histories on a live cfg.Program, differential against a fresh replica per query",
+   "text": "All histories up to the depth bound over NewCFGNode/ConnectNew/ConnectTo/NewVariable/AddBinding/AddOrigin/PasteBinding/PasteVariable/PasteBindingWithNewData/AssignToNewVariable/condition assignment with a bounded number of cache-warming queries anywhere are executed on the real Program; in every reached state each observation must equal that of a replica rebuilt by replaying the mutations only, and must not flip when repeated.",
+   "note": "Bounded: nodes/variables/bindings/depth/warming queries as in evidence.explorations. State merging on (structure, ordered warming queries + structure hash at ask time)."},
   {"property_id": "C09", "level": "model_checking",
    "technique": "explicit-state BFS over insertion histories on the real cfg.Program, BFS-reachability reference model",
    "text": "All histories of NewCFGNode/ConnectNew/ConnectTo (self and duplicate edges included) from the empty program up to 4 (quick) / 5 (thorough) nodes, and from 62..191-node seed graphs over a window straddling the 64-bit bucket boundary, are executed on the real C++ analyzer; after every transition is_reachable is compared with BFS over the recorded edges.",
